@@ -16,6 +16,12 @@ CHECKS = {
          "No reference model: the schema with Catch and its twin without are executed on the same input; issues of non-catching nodes and every other leaf must be identical, a catching node that failed in the twin must hold exactly its catch value and one that did not fail must hold the twin's value.", "DESIGN.md §4 C05"),
  "C09": ("exploration", "runtime monitor: repeated execution under observed field-visit orders and permuted insertion orders of schema and input maps; set of canonical results must be a singleton",
          "Each (schema, data) is executed many times while the schema map and the input maps are rebuilt in random insertion orders; the visit order of each run is observed through recording tests; all runs must produce the same issue map (minus $first) and, on success, the same destination.", "DESIGN.md §4 C09"),
+ "C13": ("exploration", "runtime monitor: relational oracle on the real code, Validate(&v) vs Parse(toMap(v)) on generated fully populated values, preceded by unrelated earlier calls",
+         "For generated schemas and fully populated, correctly typed values both modes are executed on the real library and must report the same (path, code, type, message) multiset and leave equal values; no reference model involved.", "DESIGN.md §4 C13"),
+ "C18": ("exploration", "runtime monitor: exhaustive numeric boundary grid x destinations x front ends against exact math/big arithmetic; random values beyond",
+         "Every numeric input of the boundary grid, in every representation, is parsed into every numeric destination (directly, inside a struct, through a JSON document) with and without bound tests attached; the destination must equal the exact value (truncated / correctly rounded) or exactly one coerce issue must be reported. exhaustive: true for the grid.", "DESIGN.md §4 C18"),
+ "C20": ("exploration", "runtime monitor: single-test schemas vs independently written predicates, exhaustive over small alphabets/ranges (about 1M subject/test pairs), both modes, plain and Not() forms",
+         "Each built-in test is executed on an exhaustively enumerated subject space and the presence of its issue is compared with a predicate written independently of zog (explicit character sets, hand-written e-mail/UUID recognisers, URLs labelled by construction, Go comparisons incl. NaN, deep equality). exhaustive: true for the enumerated spaces.", "DESIGN.md §4 C20"),
 }
 NA_REASON = "check under construction (monitor not yet registered in this commit)"
 checks = []
